@@ -622,7 +622,8 @@ enum Exp {
     Err,
     /// Ok after consuming exactly this many bytes
     Ok(usize),
-    /// Version octet above 2: the statement pins down versions 0-2 and says a
+    /// Version octet above 2 (or an Error PDU too short for its own length
+    /// fields): the statement pins down versions 0-2 and says a
     /// wrong version ends in an error; whether a reader at this layer already
     /// refuses such a PDU or leaves that to its caller is open. Either Ok
     /// after exactly this many bytes, or an error within the byte bound.
@@ -678,7 +679,9 @@ fn model(rd: Rd, k: Kind, s: &[u8]) -> Exp {
                 Exp::Skip
             } else if (s.len() as u64) < len as u64 {
                 Exp::Err
-            } else if ver > 2 {
+            } else if ver > 2 || (t == T_ERROR && len < 16) {
+                // (an Error PDU of 8..15 octets lacks its two mandatory length fields, RFC 8210
+                // 5.11: the routine that skips it may or may not notice)
                 Exp::Either(len as usize)
             } else {
                 Exp::Ok(len as usize)
@@ -1176,7 +1179,7 @@ fn run_corrupt(c: &CorruptCase, obs: &mut Obs) -> CheckResult {
         label_once(obs, match exp {
             Exp::Err => "exp:err",
             Exp::Ok(_) => "exp:ok",
-            Exp::Either(_) => "exp:ok-or-err(version>2)",
+            Exp::Either(_) => "exp:ok-or-err",
             Exp::ErrHeader => "exp:err-header",
             Exp::Unknown => "exp:unknown-type",
             Exp::Skip => "exp:not-run-alloc",
